@@ -648,6 +648,12 @@ func (f *File) Readdirnames(count int) ([]string, error) {
 	if f.done {
 		return []string{}, nil
 	}
+	if d.want(FReaddirErr, d.abs(f.name)) {
+		// the directory could be opened but reading its entries fails
+		err := &os.PathError{Op: "readdirent", Path: f.name, Err: d.pickErrno(syscall.EIO, syscall.EACCES)}
+		d.record("readdir", d.abs(f.name), err, nil, "readdir_error")
+		return []string{}, err
+	}
 	f.done = true
 	names := d.listLocked(f.n)
 	d.record("readdir", d.abs(f.name), nil, nil, "")
@@ -763,6 +769,10 @@ func Readlink(p string) (string, error) {
 		err = &os.PathError{Op: "readlink", Path: p, Err: e}
 	} else if n.kind != kSymlink {
 		err = &os.PathError{Op: "readlink", Path: p, Err: syscall.EINVAL}
+	} else if d.want(FStatErr, d.abs(p)) {
+		err = &os.PathError{Op: "readlink", Path: p, Err: d.pickErrno(syscall.EIO, syscall.EACCES)}
+		d.record("readlink", d.abs(p), err, nil, "stat_error")
+		return "", err
 	}
 	d.record("readlink", d.abs(p), err, nil, "")
 	if err != nil {
